@@ -584,6 +584,7 @@ func noPanicRule(c *Ctx, rule string, rels []string, skipFile func(string) bool,
 	nsum := computeNilErrSummaries(p, reach)
 	r.Extra[rule+" helper summaries"] = nsum
 	r.Extra[rule+" functions in scope"] = len(reach)
+	r.Extra[rule+" helpers with call-site preconditions"] = computeZonePre(p, reach)
 	for _, fn := range p.SrcFuncs() {
 		rel, ok := inRel(fn)
 		if !ok || !reach[fn] {
@@ -756,4 +757,112 @@ func init() {
 	Registry["BOUNDS"] = func(c *Ctx) {
 		noPanicRule(c, "NO-PANIC", append([]string{"pkg/base", "pkg/conn", "pkg/headers", "pkg/mikey", "pkg/sdpunmarshaler", "pkg/description", "pkg/format", "pkg/rtcpunmarshaler", "internal/base64streamreader", "pkg/auth"}, decoderPkgs...), notEncoder, 100)
 	}
+}
+
+// computeZonePre fills core.ZonePre: for every unexported helper of the scope
+// whose references are all static calls from scope functions, the lower bounds
+// of len(param) and len(param.field) that hold before every call. Two rounds,
+// so that helpers of helpers inherit as well.
+func computeZonePre(p *core.Prog, reach map[*ssa.Function]bool) int {
+	core.ZonePre = map[*ssa.Function]map[string]int64{}
+	cache := map[*ssa.Function]*core.ZoneResult{}
+	zoneOf := func(fn *ssa.Function) *core.ZoneResult {
+		if z, ok := cache[fn]; ok {
+			return z
+		}
+		z := core.ZoneAnalyse(fn)
+		cache[fn] = z
+		return z
+	}
+	n := 0
+	for round := 0; round < 2; round++ {
+		cache = map[*ssa.Function]*core.ZoneResult{}
+		for fn := range reach {
+			if fn.Parent() != nil || token.IsExported(fn.Name()) || len(fn.Params) == 0 {
+				continue
+			}
+			refs := p.RefsTo(fn)
+			if len(refs) == 0 {
+				continue
+			}
+			okRefs := true
+			for _, rf := range refs {
+				if !rf.IsCall || !reach[rf.Caller] {
+					okRefs = false
+				}
+				if _, isGo := rf.Instr.(*ssa.Go); isGo {
+					okRefs = false
+				}
+			}
+			if !okRefs {
+				continue
+			}
+			// candidate length variables of the callee, with how to find them at a call site
+			type cand struct {
+				name  string // variable name in the callee
+				param int
+				field string // "" = the parameter itself is the slice
+			}
+			var cands []cand
+			for i, prm := range fn.Params {
+				t := prm.Type()
+				switch u := t.Underlying().(type) {
+				case *types.Slice:
+					cands = append(cands, cand{"len(" + prm.Name() + ")", i, ""})
+				case *types.Basic:
+					if u.Kind() == types.String {
+						cands = append(cands, cand{"len(" + prm.Name() + ")", i, ""})
+					}
+				case *types.Pointer:
+					if st, ok := u.Elem().Underlying().(*types.Struct); ok {
+						for k := 0; k < st.NumFields(); k++ {
+							if _, isSl := st.Field(k).Type().Underlying().(*types.Slice); isSl {
+								cands = append(cands, cand{"len(path:" + prm.Name() + "." + st.Field(k).Name() + ")", i, st.Field(k).Name()})
+							}
+						}
+					}
+				}
+			}
+			if len(cands) == 0 {
+				continue
+			}
+			pre := map[string]int64{}
+			for _, cd := range cands {
+				min := int64(1 << 40)
+				for _, rf := range refs {
+					call, ok := rf.Instr.(*ssa.Call)
+					if !ok || cd.param >= len(call.Call.Args) {
+						min = 0
+						break
+					}
+					zr := zoneOf(rf.Caller)
+					arg := call.Call.Args[cd.param]
+					var lb int64
+					if cd.field == "" {
+						lb = zr.LenAtLeast(call, arg)
+						if !zr.Reachable(call) {
+							lb = 1 << 40
+						}
+					} else if ap, ok := core.PureAccessPath(arg); ok {
+						lb = zr.LowerOfLenNamed(call, "len(path:"+ap+"."+cd.field+")")
+					}
+					if lb < min {
+						min = lb
+					}
+				}
+				if min > 0 && min < 1<<40 {
+					pre[cd.name] = min
+				}
+			}
+			if len(pre) > 0 {
+				if round == 1 || core.ZonePre[fn] == nil {
+					core.ZonePre[fn] = pre
+				}
+			}
+		}
+	}
+	for range core.ZonePre {
+		n++
+	}
+	return n
 }
